@@ -237,3 +237,39 @@ func HarnessC18ValidateRuleOrder() {
 	}
 	zz.Observe("rejected", len(rejected))
 }
+
+// HarnessC18ValidateSubresources: allow-list and request resources taken from
+// a concrete list of the shapes Kubernetes knows - a resource, a resource's
+// subresource, every resource's subresource, everything - and shapes it gives
+// no meaning ("pods/*"). Nothing rejected means covered in the Kubernetes
+// sense: `*` covers all, `*/sub` covers that subresource of any resource,
+// anything else covers itself only. (Concrete strings: the code under test
+// may scan them with functions the engine does not model symbolically.)
+//
+//gosym:harness
+//gosym:cover accepted rejected
+func HarnessC18ValidateSubresources() {
+	shapes := []string{"pods", "pods/exec", "pods/status", "pods/*", "*/exec", "*", "deployments/exec"}
+	allowRes := shapes[zz.Choose("allow.resource", len(shapes))]
+	reqRes := shapes[zz.Choose("request.resource", len(shapes))]
+	allow := []rbacv1.PolicyRule{{APIGroups: []string{""}, Resources: []string{allowRes}, Verbs: []string{"get"}}}
+	if zz.Bool("allow.secondRule") {
+		allow = append(allow, rbacv1.PolicyRule{NonResourceURLs: []string{"/apis/*", "/healthz"}, Verbs: []string{"get"}})
+	}
+	reqs := []rbacv1.PolicyRule{{APIGroups: []string{""}, Resources: []string{reqRes}, Verbs: []string{"get"}}}
+	v := NewClusterRoleBackedValidator(&zzRoleGetter{rules: allow}, "allowed")
+	rejected, err := v.ValidatePermissionRequests(context.Background(), reqs...)
+	zz.Assert("validate-no-error", err == nil)
+	covered := allowRes == "*" || allowRes == reqRes
+	if !covered && len(allowRes) > 2 && allowRes[:2] == "*/" {
+		// */sub covers <any resource>/sub
+		sub := allowRes[1:]
+		covered = len(reqRes) > len(sub) && reqRes[len(reqRes)-len(sub):] == sub
+	}
+	if len(rejected) == 0 {
+		zz.Cover("accepted")
+		zz.Assert("accepted-implies-covered-in-the-kubernetes-sense", covered)
+	} else {
+		zz.Cover("rejected")
+	}
+}
